@@ -76,14 +76,14 @@ func br(b []byte, q int) []byte {
 	return out
 }
 
-// ungz accepts exactly one complete gzip member with nothing after it.
+// ungz decodes a complete gzip stream: one or more members (RFC 1952 §2.2: a gzip file is a series
+// of members; `cat a.gz b.gz` is legal) with nothing after the last one.
 func ungz(b []byte) ([]byte, error) {
 	rd := bytes.NewReader(b)
 	r, err := gzip.NewReader(rd)
 	if err != nil {
 		return nil, err
 	}
-	r.Multistream(false)
 	out, err := io.ReadAll(r)
 	if err != nil {
 		return nil, err
@@ -346,6 +346,11 @@ var hdrTableB = 4 * 3 * 2 * len(hdrVary) * 2                          // AE{gzip
 func encodeAs(ce string, plain []byte, k int) []byte {
 	switch ce {
 	case "gzip", "GZIP":
+		if len(plain) >= 4 && k%2 == 1 {
+			// two gzip members: the decoded content is the concatenation
+			h := len(plain) / 2
+			return append(gz(plain[:h], 6), gz(plain[h:], 1)...)
+		}
 		return gz(plain, []int{1, 6, 9}[k%3])
 	case "br":
 		return br(plain, []int{0, 5, 11}[k%3])
